@@ -4,3 +4,9 @@ pub mod common;
 
 pub mod c01;
 pub mod c03;
+pub mod c04;
+pub mod c05;
+pub mod c06;
+pub mod c07;
+pub mod c08;
+pub mod c16;
